@@ -142,7 +142,8 @@ def rules(ctx):
     from . import formulas
     before = len(ctx.obligations)
     formulas.network_formulas(ctx, "R9")
-    ctx.obligations[before:] = [o for o in ctx.obligations[before:] if "idle_time" not in o.id]
+    formulas.network_predicates(ctx, "R9")
+    ctx.obligations[before:] = [o for o in ctx.obligations[before:] if "idle_time" not in o.id and "maintenance_considered" not in o.id]
     from . import order
     order.pair_order(ctx, "R2", only={N("can_reach")})
     # travel times used by the timing rule are the input's own matrix entries (shared with C17)
